@@ -274,6 +274,29 @@ func fontSet(thorough bool) []fontSpec {
 			}
 			return f, nil
 		}})
+	res = append(res, fontSpec{ID: "lken", Desc: "the rich TrueType font (GSUB 1-6) with a full-length names list in which the glyphs no character reaches, and every third other glyph, have an empty name",
+		build: func() (*sfnt.Font, error) {
+			f, err := richFont("ttf", 80)
+			if err != nil {
+				return nil, err
+			}
+			o := f.Outlines.(*glyf.Outlines)
+			mapped := map[glyph.ID]bool{}
+			if best, err := f.CMapTable.GetBest(); err == nil {
+				lo, hi := best.CodeRange()
+				for r := lo; r <= hi && r < lo+70000; r++ {
+					if g := best.Lookup(r); g != 0 {
+						mapped[g] = true
+					}
+				}
+			}
+			for i := 1; i < len(o.Names); i++ {
+				if !mapped[glyph.ID(i)] || i%3 == 0 {
+					o.Names[i] = ""
+				}
+			}
+			return f, nil
+		}})
 	res = append(res, fontSpec{ID: "goregular", Desc: "Go Regular (golang.org/x/image) read by sfnt.Read",
 		build: fonts.GoRegular})
 	res = append(res, fontSpec{ID: "macroman", Desc: "258-glyph TrueType font with post version 1: Names is post.macRoman",
